@@ -102,7 +102,8 @@ def inlinable(facts, t, stack, want=None, closures=False):
 # so that a rule sees one normal form whichever spelling the source uses.
 
 OPT, RES, POLL, CF = "std::option::Option", "std::result::Result", "std::task::Poll", "std::ops::ControlFlow"
-VARIANTS = {OPT: ["None", "Some"], RES: ["Ok", "Err"], POLL: ["Ready", "Pending"], CF: ["Continue", "Break"]}
+HENTRY = "std::collections::hash_map::Entry"
+VARIANTS = {OPT: ["None", "Some"], RES: ["Ok", "Err"], POLL: ["Ready", "Pending"], CF: ["Continue", "Break"], HENTRY: ["Occupied", "Vacant"]}
 
 # result expressions: ("payload",) | ("arg", i) | ("call", i, "payload"|"refpayload"|None) | ("wrap", adt, variant, expr|None)
 #                     | ("bool", b) | ("filter", i)
@@ -130,6 +131,12 @@ COMBINATORS = [
     (r"^std::result::Result::<.*>::ok$", RES, {"Ok": ("wrap", OPT, "Some", ("payload",)), "Err": ("wrap", OPT, "None", None)}),
     (r"^std::result::Result::<.*>::err$", RES, {"Ok": ("wrap", OPT, "None", None), "Err": ("wrap", OPT, "Some", ("payload",))}),
     (r"^std::task::Poll::<.*>::map$", POLL, {"Ready": ("wrap", POLL, "Ready", ("call", 1, "payload")), "Pending": ("wrap", POLL, "Pending", None)}),
+    (r"^std::collections::hash_map::Entry::<.*>::or_insert_with$", HENTRY,
+     {"Occupied": ("stdcall", "std::collections::hash_map::OccupiedEntry::into_mut", ["payload"]),
+      "Vacant": ("stdcall", "std::collections::hash_map::VacantEntry::insert", ["payload", ("call", 1, None)])}),
+    (r"^std::collections::hash_map::Entry::<.*>::or_insert$", HENTRY,
+     {"Occupied": ("stdcall", "std::collections::hash_map::OccupiedEntry::into_mut", ["payload"]),
+      "Vacant": ("stdcall", "std::collections::hash_map::VacantEntry::insert", ["payload", ("arg", 1)])}),
     (r"^<std::option::Option<.*> as std::ops::Try>::branch$", OPT, {"Some": ("wrap", CF, "Continue", ("payload",)), "None": ("wrap", CF, "Break", ("wrap", OPT, "None", None))}),
     (r"^<std::result::Result<.*> as std::ops::Try>::branch$", RES, {"Ok": ("wrap", CF, "Continue", ("payload",)), "Err": ("wrap", CF, "Break", ("wrap", RES, "Err", ("payload",)))}),
     (r"^<std::option::Option<.*> as std::ops::FromResidual<.*>>::from_residual$", None, ("wrap", OPT, "None", None)),
@@ -225,6 +232,10 @@ def _expand_combinator(facts, d, blocks, b, spec, level, stack_of):
             need.add(e[1])
         if e[0] == "wrap":
             closures_in(e[3])
+        if e[0] == "stdcall":
+            for a in e[2]:
+                if a != "payload":
+                    closures_in(a)
     if adt is None:
         closures_in(arms)
     else:
@@ -256,6 +267,24 @@ def _expand_combinator(facts, d, blocks, b, spec, level, stack_of):
             return new_block([{"k": "assign", "p": cont_place, "r": {"k": "use", "o": copy.deepcopy(args[e[1]])}, "l": line}], {"k": "goto", "t": nxt, "l": line})
         if kind == "bool":
             return new_block([{"k": "assign", "p": cont_place, "r": {"k": "use", "o": {"k": {"ty": "bool", "v": "true" if e[1] else "false"}}}, "l": line}], {"k": "goto", "t": nxt, "l": line})
+        if kind == "stdcall":
+            # dest = <std fn>(args...) where an argument is the payload or a sub-expression computed first
+            _, name, alist = e
+            cargs = []
+            chain_entry = None
+            pending = []
+            for a in alist:
+                if a == "payload":
+                    cargs.append({"m": copy.deepcopy(payload)})
+                else:
+                    tmp = new_local()
+                    cargs.append({"m": {"l": tmp, "p": []}})
+                    pending.append((a, tmp))
+            term = {"k": "call", "decl": name, "decla": name, "res": name, "resa": name, "resl": False, "resk": "item", "args": cargs, "argtys": [], "dest": cont_place, "t": nxt, "u": None, "l": line, "fl": line}
+            cur = new_block([], term)
+            for (a, tmp) in reversed(pending):
+                cur = emit(a, payload, {"l": tmp, "p": []}, cur)
+            return cur
         if kind == "defcall":
             term = {"k": "call", "decl": "std::default::Default::default", "decla": "std::default::Default::default", "res": None, "resl": False, "args": [], "argtys": [],
                     "dest": cont_place, "t": nxt, "u": None, "l": line, "fl": line}
